@@ -36,9 +36,9 @@ static int exc_code(const std::exception_ptr& e)
     }
     catch (const std::exception_ptr& inner)
     {
-        // whenAll / whenAny pass the input's exception_ptr through Rejection::operator()(Exc),
-        // which wraps it once more with make_exception_ptr
-        return exc_code(inner);
+        // the exception arrived wrapped in another exception_ptr: it is not "the same exception"
+        // for a handler that catches by type; reported as code + 1000
+        return 1000 + exc_code(inner);
     }
     catch (...)
     {
